@@ -485,8 +485,41 @@ def _catalogue(spec, mon, rec):
             rec.sample({'kind': 'catalogue', 'text': dtext, 'document': repr(make_doc())[:200]})
 
 
+def _interface(mon, rec):
+    """python code evaluating through a YaqlInterface built over the host's prepared context: arguments are bound in a
+    scope of the call, the prepared context keeps its variables, functions and `$`"""
+    from yaql import yaql_interface as yint
+    for mode_off, eng in ((False, mon.eng_on), (True, mon.eng_off)):
+        prepared = mon.host.create_child_context()
+        prepared['$'] = 'HOST-DOLLAR'
+        prepared['keep'] = 41
+        yi = yint.YaqlInterface(prepared, eng)
+        calls = [(lambda: yi('$1 + $keep', 1), 42), (lambda: yi('[$1, $2, $]', 1, 2), [1, 2, 1]), (lambda: yi('$bonus * 2', bonus=4), 8),
+                 (lambda: yi('$keep'), 41), (lambda: yi('[$, $bonus, $1]'), ['HOST-DOLLAR', None, 'HOST-DOLLAR']),
+                 (lambda: yi.len([1, 2, 3]), 3), (lambda: yi.on([3, 1]).orderBy(yi.engine('$').evaluate), None),
+                 (lambda: yi('scratch($1)', 5), 5), (lambda: yi('$1 + $keep', 1), 42)]
+        fp0 = ctx_fingerprint(prepared)
+        for k, (f, want) in enumerate(calls):
+            try:
+                got = ('value', f())
+            except Exception as e:
+                got = ('exc', type(e).__name__)
+            rec.count('cases')
+            rec.count('interface.calls')
+            rec.case(('interface', k, mode_off), nontrivial=True)
+            fp = ctx_fingerprint(prepared)
+            d = diff_fingerprint(fp0, fp, skip_dollar_in_first=False)
+            rp = {'kind': 'interface', 'mode_off': mode_off}
+            if d:
+                rec.violation('host-context-changed:interface', 'YaqlInterface call #%d on a prepared context changed it: %s' % (k, d), rp)
+                fp0 = fp
+            if want is not None and got != ('value', want):
+                rec.violation('re-evaluation-differs:interface', 'YaqlInterface call #%d gave %r, expected %r' % (k, got, want), rp)
+
+
 def _history(spec, mon, rec):
     rng = rng_for(spec['seed'], 'c09', spec['name'])
+    _interface(mon, rec)
     for h in range(spec['count']):
         texts = rng.sample(POOL, 20)
         mode_off = rng.random() < 0.5
@@ -584,7 +617,9 @@ def replay(data, rec):
     mon = Mon(rec)
     try:
         eng = mon.eng_off if data.get('mode_off') else mon.eng_on
-        if data['kind'] == 'contextless':
+        if data['kind'] == 'interface':
+            _interface(mon, rec)
+        elif data['kind'] == 'contextless':
             st = eng(data['text'])
             mon.protect_statement(st)
             _contextless(mon, rec, eng, data['text'], st, data.get('mode_off'))
